@@ -218,6 +218,20 @@ func (r *Run) Violation(key string, caseIdx int, brief string, detail any) {
 // Finish writes evidence/<prop>.json and the result file read by the driver,
 // and fails the test on violation or on a run that observed nothing.
 func (r *Run) Finish(t *testing.T) {
+	// Finish is deferred by every check. When it runs because the test goroutine is panicking - the real code
+	// panicked in it, or testing/synctest found every goroutine of a bubble blocked for good although all
+	// scripted events had been played (a call of the real code that never returns) - that is the verdict: it
+	// must not be overwritten by "held on everything observed so far".
+	if p := recover(); p != nil {
+		buf := make([]byte, 64<<10)
+		buf = buf[:runtime.Stack(buf, false)]
+		msg := fmt.Sprint(p)
+		if len(msg) > 600 {
+			msg = msg[:600]
+		}
+		r.Violation("crash", -1, "the test process panicked while driving the real code (for a synctest bubble: every goroutine blocked for good, i.e. a call that never returns): "+msg, map[string]any{"stack": string(buf)})
+		defer panic(p)
+	}
 	r.mu.Lock()
 	defer r.mu.Unlock()
 	var broken []string
